@@ -165,6 +165,38 @@ def prepare(verbose=False):
     return out
 
 
+def build_wrap_runner(build_dir):
+    """native runner compiled WITHOUT arithmetic overflow checks (what `cargo build --release` users run), built on demand
+    for the same source state as build_dir"""
+    out = os.path.join(build_dir, 'runner_wrap')
+    if os.path.exists(out):
+        return out
+    with open(os.path.join(CACHE, 'lock'), 'w') as lk:
+        fcntl.flock(lk, fcntl.LOCK_EX)
+        if os.path.exists(out):
+            return out
+        if os.path.basename(build_dir) != 'b-' + source_hash():
+            raise BuildError('source tree changed while a check was running')
+        run = os.path.join(SCRATCH, 'run')
+        try:
+            _copy_repo(run)
+            rdir = os.path.join(run, 'verif_runner')
+            shutil.copytree(os.path.join(VERIF, 'replay', 'src'), os.path.join(rdir, 'src'))
+            shutil.copy(os.path.join(VERIF, 'replay', 'Cargo.toml.in'), os.path.join(rdir, 'Cargo.toml'))
+            shutil.copy(os.path.join(run, 'Cargo.lock'), os.path.join(rdir, 'Cargo.lock'))
+            open(os.path.join(rdir, 'src', 'targets_gen.rs'), 'w').write(
+                _gen_targets(open(os.path.join(run, 'src', 'analyzer', 'ast.rs')).read()))
+            env_run = dict(ENV, CARGO_TARGET_DIR=os.path.join(CACHE, 'target-run'))
+            p = subprocess.run(['cargo', 'build', '--offline', '--profile', 'wrap', '--bin', 'solstat-verif-runner'], cwd=rdir,
+                               env=env_run, stdout=subprocess.PIPE, stderr=subprocess.PIPE, text=True)
+            if p.returncode != 0:
+                raise BuildError('wrap runner build failed:\n' + p.stderr[-3000:])
+            shutil.copy2(os.path.join(CACHE, 'target-run', 'wrap', 'solstat-verif-runner'), out)
+        finally:
+            shutil.rmtree(SCRATCH, ignore_errors=True)
+    return out
+
+
 def solang_pt_path():
     """pt.rs of the solang-parser version named in /repo/Cargo.lock"""
     lock = open(os.path.join(REPO, 'Cargo.lock')).read()
